@@ -1118,6 +1118,8 @@ func (ni *negInt) Value() (driver.Value, error) {
 }
 
 func dbtype(abitype string, d []byte) any {
+	// array elements are mapped like their element type
+	abitype = strings.SplitN(abitype, "[", 2)[0]
 	switch {
 	case strings.HasPrefix(abitype, "int"):
 		x := &uint256.Int{}
